@@ -197,6 +197,15 @@ Section Ext.
   Definition roundtrip (v : value) : outcome value := dec_tree (wire v).
 End Ext.
 
+(** well-formed array of rank >= 1: the bytes are exactly itemsize * prod(shape) *)
+Definition wf_arrb (a : ndarray) : bool :=
+  match itemsize (dt a) with
+  | Some isz => (0 <? isz) && (Z.of_nat (String.length (data a)) =? isz * prodz (shape a))
+                && forallb (fun d => 0 <=? d) (shape a) && negb (match shape a with [] => true | _ => false end)
+  | None => false
+  end.
+
+
 (** * comparison helpers and the correspondence check *)
 Definition nd_eqb (a b : ndarray) : bool :=
   String.eqb (dt a) (dt b) && list_eqb Z.eqb (shape a) (shape b) && String.eqb (data a) (data b).
